@@ -46,6 +46,7 @@ import common
 from common import short
 from gen import c15_programs as P
 from gen import c16_dynparams as DP
+from gen import c16_memo as MP
 from props import c15 as C15
 
 MODELS = ['Recursion', 'Determinism']
@@ -229,10 +230,33 @@ NESTED_CAUSE = ('call-site search memoised at nested depth (fewer call sites); d
                 'every query boundary')
 
 
-def dyn_cause(boundary_bad, depths, blocked=0):
-    """why answers that involve the dynamic parameter search can differ between histories"""
+ONE_SHOT_CAUSE = 'memo entry holds a one-shot iterator: '
+# memoised functions known to store their generator as it is (known finding
+# C16-pytest-modules-generator-memoised); everything else that shows up breaks the tie of the
+# theorem memo_values_are_replayable
+KNOWN_ONE_SHOT = {'jedi.plugins.pytest._iter_pytest_modules'}
+
+
+def memo_one_shot(script):
+    """names of the memoised functions for which InferenceState.memoize_cache holds a one-shot
+    iterator (a generator object, map/filter/zip object ...) as the remembered VALUE: whoever reads
+    the entry first consumes it, every later reader of the same key sees what is left.  (The tuple
+    (generator, list) of inference_state_method_generator_cache is not one: it replays the list.)"""
+    out = set()
+    for fn, memo in list(script._inference_state.memoize_cache.items()):
+        for v in list(memo.values()):
+            if hasattr(type(v), '__next__'):      # on the type: ValueSet answers every getattr
+                out.add('%s.%s' % (getattr(fn, '__module__', '?'), getattr(fn, '__qualname__', repr(fn))))
+                break
+    return sorted(out)
+
+
+def dyn_cause(boundary_bad, depths, blocked=0, one_shot=()):
+    """why answers that involve the dynamic parameter search / the memo can differ between histories"""
     if any('dynamic_params_depth' in b for b in boundary_bad):
         return LEAK_CAUSE
+    if one_shot:
+        return ONE_SHOT_CAUSE + ', '.join(one_shot)
     if blocked:
         return BLOCKED_CAUSE
     if any(d >= 2 for d in depths):
@@ -826,8 +850,9 @@ def ask(script, qq):
 
 class Fresh:
     """answers of fresh Scripts, one Script per query"""
-    def __init__(self, src):
+    def __init__(self, src, mk=None):
         self.src = src
+        self.mk = mk
         self.ans = {}
         self.depths = {}
         self.blocked = {}
@@ -835,7 +860,7 @@ class Fresh:
     def __call__(self, qq):
         if qq not in self.ans:
             import jedi
-            script = jedi.Script(self.src)
+            script = self.mk() if self.mk else jedi.Script(self.src)
             self.ans[qq] = ask(script, qq)
             self.depths[qq] = SearchHook.depths(script)
             self.blocked[qq] = SearchHook.blocked(script)
@@ -846,13 +871,14 @@ SESSION_HOW = ('s = jedi.Script(source); answers = [s.<query>(line, column) for 
                'compare the answer at index `at` with jedi.Script(source).<query>(line, column) on a fresh Script')
 
 
-def run_sessions(ctx, stream, label, src, sessions, fresh, probes, cap, probed, extra_case=None):
+def run_sessions(ctx, stream, label, src, sessions, fresh, probes, cap, probed, extra_case=None, mk=None):
     """the direct oracle of the second sentence of C16: every answer given in a session on one Script
     equals the answer of a fresh Script; after every query the per-query state of the real
     InferenceState is checked (the mechanism query_boundary_inv is about)"""
     import jedi
+    mk = mk or (lambda: jedi.Script(src))
     for sess in sessions:
-        script = jedi.Script(src)
+        script = mk()
         internal = False
         boundary_bad = []
         for at, qq in enumerate(sess):
@@ -874,7 +900,7 @@ def run_sessions(ctx, stream, label, src, sessions, fresh, probes, cap, probed, 
                     probed.add((label, tuple(bad)))
                     prefix = [list(x) for x in sess[:at + 1]]
                     for pq in probes:
-                        s2 = jedi.Script(src)
+                        s2 = mk()
                         for qq2 in sess[:at + 1]:
                             ask(s2, qq2)
                         a = ask(s2, pq)
@@ -893,6 +919,13 @@ def run_sessions(ctx, stream, label, src, sessions, fresh, probes, cap, probed, 
                 if ans[0] != 'ValueError':
                     # C01's statement; only counted here
                     ctx.count('raised', (label, qq), nontrivial=False, bucket='out-of-range:%s' % ans[0])
+            one_shot = memo_one_shot(script)
+            if set(one_shot) - KNOWN_ONE_SHOT:
+                # the mechanism the theorem memo_values_are_replayable is about no longer holds on the
+                # real memo; whether the property fails is decided by the answers compared below
+                ctx.tie_broken('state:memo_values_are_replayable (%s)' % stream,
+                               short({'label': label, 'session': [list(x) for x in sess], 'at': at,
+                                      'memoised one-shot iterators': one_shot}, 800))
             if not same_answer(ctx, stream, (label, tuple(sess), at), ans, exp):
                 counts = script._inference_state.inferred_element_counts
                 worst = max(counts.values() or [0])
@@ -902,7 +935,7 @@ def run_sessions(ctx, stream, label, src, sessions, fresh, probes, cap, probed, 
                        'inferred_element_counts_max': worst,
                        'cap_state': 'inferred_element_counts>cap' if worst > cap else 'below-cap',
                        'history': 'after-internal-exception' if internal else 'no-internal-exception',
-                       'cause': dyn_cause(boundary_bad, depths, blocked),
+                       'cause': dyn_cause(boundary_bad, depths, blocked, one_shot),
                        'search_depths_max': max(depths or [0]), 'blocked_lookups': blocked,
                        'boundary_state': sorted(set(boundary_bad))}
                 ctx.fail(stream, 'answer on a used Script differs from the answer of a fresh Script: '
@@ -990,6 +1023,70 @@ def stream_dynsession(ctx, cap):
 
 
 # ----------------------------------------------------------------- stream: fault
+
+class MemoProject:
+    """the files of one c16_memo program in a directory of their own, with a jedi.Project on it"""
+    def __init__(self, base, n, prog):
+        import jedi
+        self.dir = os.path.join(base, 'p%d' % n)
+        os.makedirs(self.dir)
+        for name, text in prog['files'].items():
+            with open(os.path.join(self.dir, name), 'w', encoding='utf-8') as f:
+                f.write(text)
+        self.project = jedi.Project(self.dir)
+        self.main = prog['main']
+        self.path = os.path.join(self.dir, 'main.py')
+
+    def __call__(self):
+        import jedi
+        return jedi.Script(self.main, path=self.path, project=self.project)
+
+
+def memo_sessions(ctx, rng, prog, quick):
+    """sessions of DISTINCT queries at different use sites of the same definitions"""
+    by = {}
+    for (f, i, k, kind, q, l, c) in prog['queries']:
+        by.setdefault((f, i), {}).setdefault(k, {})[kind] = (q, l, c)
+    sessions = []
+    for (f, i), uses in sorted(by.items()):
+        ks = sorted(uses)
+        for a in ks:
+            for b in ks:
+                if a == b:
+                    continue
+                cand = [[uses[a]['value'], uses[b]['value']],
+                        [uses[a]['attr'], uses[b]['value']],
+                        [uses[a].get('attr-complete', uses[a]['attr']), uses[b]['attr']],
+                        [uses[a]['value'], uses[a]['value'], uses[b]['attr'], uses[b]['value']]]
+                sessions += [cand[0], rng.choice(cand[1:])] if quick else cand
+    allq = [(q, l, c) for (f, i, k, kind, q, l, c) in prog['queries']]
+    for _ in range(1 if quick else 6):
+        perm = rng.sample(allq, min(8, len(allq)))      # a permutation of up to 8 distinct queries
+        sessions.append(perm)
+        sessions.append(list(reversed(perm)))
+    return sessions
+
+
+def stream_memosession(ctx, cap, pcache):
+    """every way a value reaches a name through a memo (gen/c16_memo.py), each definition used at
+    several sites; sessions of distinct queries on one Script vs a fresh Script per query; after every
+    query the real memo is scanned for remembered one-shot iterators"""
+    rng = ctx.subrng('memosession')
+    specs = [('memo-cover-%d' % i, sp) for i, sp in enumerate(MP.coverage_specs())]
+    for i in range(ctx.size(3, 60)):
+        specs.append(('memo-%d' % i, MP.gen_spec(rng, with_pytest=rng.random() < 0.2)))
+    base = os.path.join(pcache.dir, 'memo-programs')
+    os.makedirs(base)
+    probed = set()
+    for n, (label, spec) in enumerate(specs):
+        prog = MP.build(spec)
+        mk = MemoProject(base, n, prog)
+        fresh = Fresh(prog['main'], mk)
+        sessions = memo_sessions(ctx, rng, prog, ctx.quick)
+        probes = [(q, l, c) for (f, i, k, kind, q, l, c) in prog['queries'] if kind == 'value']
+        run_sessions(ctx, 'memosession', label, prog['main'], sessions, fresh, probes, cap, probed,
+                     extra_case={'files': prog['files'], 'families': sorted({f for f, _ in spec})}, mk=mk)
+
 
 class Injected(BaseException):
     pass
@@ -1119,6 +1216,7 @@ def run(ctx):
         timed('order', stream_order, ctx)
         timed('session', stream_session, ctx, cap)
         timed('dynsession', stream_dynsession, ctx, cap)
+        timed('memosession', stream_memosession, ctx, cap, pcache)
         try:
             timed('fault', stream_fault, ctx)
         except common.TieBroken as e:
@@ -1152,15 +1250,20 @@ def replay(ctx, payload):
     import jedi
     inp = payload['input']
     if 'session' in inp:
-        with PrivateCache(), SearchHook():
-            s = jedi.Script(inp['source'])
+        with PrivateCache() as pcache, SearchHook():
+            mk = lambda: jedi.Script(inp['source'])
+            if inp.get('files'):
+                # a c16_memo program: its files in a directory of their own, main.py given as text
+                mk = MemoProject(pcache.dir, 0, {'files': inp['files'], 'main': inp['source']})
+            s = mk()
             ndiff = 0
             for i, qq in enumerate(inp['session']):
                 a = ask(s, tuple(qq))
-                f = ask(jedi.Script(inp['source']), tuple(qq))
+                f = ask(mk(), tuple(qq))
                 n = lambda r: '%d results' % len(r[1]) if r[0] == 'ok' else r[0]
                 print(i, qq, 'used Script:', n(a), short(a, 300), '| fresh Script:', n(f), short(f, 300),
                       '' if a == f else '   <-- DIFFERS (%s)' % classify(f, a))
+                print('   memoised one-shot iterators:', memo_one_shot(s) or 'none')
                 print('   state after the query:', state_defaults(s) or 'defaults',
                       '| dynamic searches so far at depths', SearchHook.depths(s), '| blocked lookups', SearchHook.blocked(s))
                 ndiff += a != f
